@@ -140,7 +140,7 @@ func c09StepInvariant(s *buffer.Buffer, op *bufOp, s2 *buffer.Buffer) string {
 	}
 	if op.Kind == 'z' {
 		if len(f2) != 0 {
-			return fmt.Sprintf("state %+v --Reset--> prints %q, want nothing", st, f2)
+			return fmt.Sprintf("state %+v --%s--> prints %q, want nothing", st, op.Name, f2)
 		}
 		return ""
 	}
